@@ -297,6 +297,7 @@ def m_arange(I, e, args, kws):
         out.shp |= out.data
         out.data = E
         out.tags["index_range"] = True
+        out.tags["asc_range"] = args[0]                             # arange(n): 0, …, n-1
     else:
         out.shape = Shape([None])
     out.tags["arange"] = True
@@ -1202,11 +1203,23 @@ def m_einsum(I, e, args, kws):
     return out
 
 
+@model("functools.partial")
+def m_partial(I, e, args, kws):
+    fn = args[0]
+    out = mk(args + list(kws.values()), tags={"callable": True, "partial": (fn, list(args[1:]), dict(kws))})
+    return out
+
+
 @model("numpy.apply_along_axis")
 def m_apply_along_axis(I, e, args, kws):
     fn = args[0]
     ax, arr = args[1], args[2]
     rest = args[3:]
+    if fn.tag("partial") is not None:
+        # np.apply_along_axis(partial(f, *a, **k), axis, arr, *rest, **kws): f(arr_1d, …) receives a / k as well
+        pf, pa, pk = fn.tag("partial")
+        if not pa:
+            fn, kws = pf, dict(pk, **kws)
     # func1d(arr_1d, *rest, **kws)
     r = I.call_value(e, fn, [arr] + list(rest), kws)
     out = mk([r, ax, arr], fresh="FRESH", unit=r.flat().unit, tags={"kind": "ndarray"})
@@ -1252,6 +1265,8 @@ def m_concat(I, e, args, kws):
         keep(out, j, "deg", "litfactor")
     # shape: concatenation of n copies of a 1-D vector of extent d -> n⊗d (sample-major)
     ax = axis_arg(args, kws, 1, 0)
+    if vals and ax == 0 and name in ("concatenate", "vstack") and all(v.flat().tag("simplex_rows") for v in vals):
+        out.tags["simplex_rows"] = True          # blocks of probability vectors stacked row-wise are rows of probability vectors
     if name == "concatenate" and len(parts) >= 1 and ax == 0:
         total = None
         okk = True
